@@ -611,6 +611,9 @@ func (w *world) dumpTerm() (string, []hint, *scheduler.VerifState) {
 func errorCode(errs []string) int {
 	n := 0
 	for _, e := range errs {
+		if strings.HasPrefix(e, "info:") {
+			continue
+		}
 		if strings.HasPrefix(e, "heap-order") {
 			n += 1000
 		} else {
